@@ -84,6 +84,23 @@ def untyped_builder():
          lambda n: n.name.ident == "w" and [getattr(c.name, "ident", c.name) for c in n.children] == [0, "v2", 0]),
         ("int-item", lambda: 0, lambda n: n.name == 0 and type(n.name) is int and n.children is None),
     ]
+    # one child per item of the body, whatever the item is: an operator nested in an operator stays ONE child with its own items
+    # (`$and_any_order: [a, {$and: [b, c]}]` permutes two units, not three) -- every pair of operators, at both positions
+    OPS = ("$and", "$or", "$and_any_order", "$not")
+    for op in OPS:
+        for op2 in OPS:
+            if op == op2 and op in ("$and", "$or"):     # flattening `$and` in `$and` / `$or` in `$or` is associativity: not this contract's business
+                continue
+
+            def mk_nest(op=op, op2=op2):
+                return {op: [Name("v1"), {op2: [Name("v2"), Name("v3")]}, Name("v4"), {op2: [Name("v5")]}]}
+
+            def post_nest(n, op=op, op2=op2):
+                c = n.children
+                return (n.name == op and len(c) == 4 and c[0].name.ident == "v1" and c[0].children is None and c[2].name.ident == "v4"
+                        and c[1].name == op2 and [x.name.ident for x in c[1].children] == ["v2", "v3"] and all(x.children is None for x in c[1].children)
+                        and c[3].name == op2 and [x.name.ident for x in c[3].children] == ["v5"])
+            cases.append((f"op-nest:{op}:{op2}", mk_nest, post_nest))
     for cid, mk, post in cases:
         run = sym_run(lambda mk=mk: J.builder.PatternNodeBuilderNoParents(mk(), sc).build())
         for i, p in enumerate(run.paths):
